@@ -39,7 +39,8 @@ GenMotion(vs, sd, t, j, searches) ==
         ch == IF Len(l) > 1 /\ Pick(sd, t, j + 1, 3) > 0 THEN l[Pick(sd, t, j + 2, Len(l) - 1) + 1] ELSE Elem(sd, t, j + 2, CharPool)
         mk == IF Pick(sd, t, j + 3, 2) = 0 THEN 97 ELSE IF Pick(sd, t, j + 4, 2) = 0 THEN 98 ELSE (IF k = "'" THEN 39 ELSE 96)
         usable == mk \in DOMAIN vs.ed.marks /\ vs.ed.marks[IF mk = 96 THEN 39 ELSE mk].known
-    IN IF k \in {"'", "`"} THEN (IF usable THEN [k |-> k, ch |-> mk, re |-> <<>>, so |-> 0] ELSE Mot("w"))
+    IN IF k \in {"H", "M", "L"} /\ NR(vs) >= vs.rows THEN Mot("k")        \* these depend on the scrolling policy once the text does not fit
+       ELSE IF k \in {"'", "`"} THEN (IF usable THEN [k |-> k, ch |-> mk, re |-> <<>>, so |-> 0] ELSE Mot("w"))
        ELSE IF k \in {"f", "F", "t", "T"} THEN [k |-> k, ch |-> IF ch = NL THEN 120 ELSE ch, re |-> <<>>, so |-> 0]
        ELSE IF k \in {"/", "?"} THEN [k |-> k, ch |-> 0, re |-> Elem(sd, t, j + 5, PatPool),
                                       so |-> IF Pick(sd, t, j + 6, 8) = 0 THEN 1 ELSE IF Pick(sd, t, j + 6, 8) = 1 THEN -1 ELSE 0]
@@ -98,6 +99,8 @@ ConcatLines(ls) == IF ls = <<>> THEN <<>> ELSE IF Len(ls) = 1 THEN ls[1] ELSE ls
 (* the first command of every script fills the buffer *)
 FirstKeys(sd) == LET n == 4 + Pick(sd, 0, 0, 6) IN
                  ConcatLines([i \in 1..n |-> Elem(sd, 0, i, TextPool)])
+Ins(keys) == [k |-> "ins", ik |-> "i", keys |-> keys, reg |-> 0, c1 |-> 0]
+MotC(k, c1) == [k |-> "mot", m |-> Mot(k), c1 |-> c1, reg |-> 0]
 RECURSIVE Script(_, _, _, _)
 Script(vs, sd, t, n) ==
     IF t > n THEN <<>>
@@ -109,10 +112,75 @@ Script(vs, sd, t, n) ==
              v1c == ViCmd([vs EXCEPT !.ed.code = TRUE], c)
              step == [keys |-> Keys(c), kind |-> c.k, sub |-> IF c.k = "mot" THEN c.m.k ELSE IF c.k = "op" THEN c.op ELSE c.k,
                       exp |-> Proj(v1), thm |-> IF Thm(vs, c, v1) THEN 1 ELSE 0]
-         IN IF Proj(v1c) = Proj(v1) THEN <<step>> \o Script(v1, sd, t + 1, n) ELSE <<step @@ [alt |-> Proj(v1c), wb |-> IF HasWB(v1.ed.kwd) THEN 1 ELSE 0]>>
+         IN IF Proj(v1c) = Proj(v1) THEN <<step>> \o Script(v1, sd, t + 1, n)
+            ELSE <<step @@ [alt |-> Proj(v1c), wb |-> IF HasWB(v1.ed.kwd) THEN 1 ELSE 0]>>
+
+(* ---- C09: repeat, macros, counts -------------------------------------------------------------------------------------
+   The input queue is modelled as it is: "." appends max(N,1) copies of the keys of the last repeatable command, "@r" copies of
+   the register; queued keys are consumed, command by command, before anything typed.  `pending' holds the queued commands,
+   `last' the last repeatable command, `macro' the commands whose keys register a holds.  Every command taken from the queue
+   is checked with the same ViCmd as a typed one: that is "the same effect as retyping". *)
+Repeatable(c) == \/ c.k \in {"op", "x", "X", "D", "C", "s", "S", "Y", "~", "ins", "p", "P", "J", "r"}
+SubOf(c) == IF c.k = "mot" THEN c.m.k ELSE IF c.k = "op" THEN c.op ELSE c.k
+MacroPool == << <<[k |-> "x", c1 |-> 0, reg |-> 0], MotC("l", 0)>>,
+                <<[k |-> "op", op |-> "d", m |-> Mot("w"), c1 |-> 0, c2 |-> 0, reg |-> 0, keys |-> <<>>], MotC("j", 0)>>,
+                <<[k |-> "~", c1 |-> 2, reg |-> 0], MotC("w", 0)>>,
+                <<[k |-> "r", c1 |-> 0, ch |-> 88, reg |-> 0], MotC("l", 2), [k |-> "J", c1 |-> 0, reg |-> 0]>>,
+                <<[k |-> "ins", ik |-> "a", keys |-> <<233, 98>>, reg |-> 0, c1 |-> 0], MotC("b", 0)>>,
+                <<[k |-> "op", op |-> ">", m |-> Mot("dbl"), c1 |-> 0, c2 |-> 0, reg |-> 0, keys |-> <<>>],
+                  [k |-> "op", op |-> "c", m |-> Mot("e"), c1 |-> 0, c2 |-> 0, reg |-> 98, keys |-> <<122, 32>>]>> >>
+RECURSIVE KeysOfAll(_), Quote(_)
+KeysOfAll(cs) == IF cs = <<>> THEN <<>> ELSE Keys(Head(cs)) \o KeysOfAll(Tail(cs))
+Quote(ks) == IF ks = <<>> THEN <<>> ELSE (IF Head(ks) < 32 THEN <<22, Head(ks)>> ELSE <<Head(ks)>>) \o Quote(Tail(ks))   \* ^V before control keys
+RECURSIVE Copies(_, _)
+Copies(cs, k) == IF k = 0 THEN <<>> ELSE cs \o Copies(cs, k - 1)
+GenRepeat(vs, sd, t, last, hasmacro) ==     \* what is typed next in the "repeat" profile
+    LET q == Pick(sd, t, 40, 100)  cnt == Elem(sd, t, 41, <<0, 0, 0, 2, 3, 1>>) IN
+    IF q < 28 /\ last.k # "none" THEN [k |-> "dot", c1 |-> cnt]
+    ELSE IF q < 40 /\ hasmacro THEN [k |-> "at", c1 |-> cnt, again |-> Pick(sd, t, 42, 3) = 0]
+    ELSE IF q < 46 /\ ~hasmacro /\ NR(vs) > 0 THEN [k |-> "defmacro", idx |-> 1 + Pick(sd, t, 43, Len(MacroPool))]
+    ELSE LET c == GenCmd(vs, sd, t) IN
+         (* register a belongs to the macro *)
+         IF "reg" \in DOMAIN c /\ c.reg \in {97, 65} THEN [c EXCEPT !.reg = 98] ELSE c
+RECURSIVE RScript(_, _, _, _, _, _, _, _)
+RScript(vs, sd, t, n, pending, last, macro, atseen) ==
+    IF t > n /\ pending = <<>> THEN <<>>
+    ELSE IF pending # <<>> THEN
+        LET p == Head(pending)
+            c0 == p.c
+            c == IF c0.k = "op" /\ c0.op = "c" /\ ~ViCmd(vs, c0).ok THEN [c0 EXCEPT !.op = "d", !.keys = <<>>] ELSE c0
+            v1 == ViCmd(vs, c)
+            (* a change whose target fails leaves its text in the queue: the keys would be read as commands; such queues are not generated *)
+            bad == c0.k = "op" /\ c0.op = "c" /\ ~ViCmd(vs, c0).ok /\ ~p.typed
+        IN IF bad THEN <<>>
+           ELSE <<[keys |-> IF p.typed THEN p.tkeys ELSE <<>>, xkeys |-> IF p.typed THEN p.tkeys ELSE Keys(c), kind |-> c.k, sub |-> SubOf(c),
+                   queued |-> IF p.typed THEN 0 ELSE 1, exp |-> Proj(v1), thm |-> IF Thm(vs, c, v1) THEN 1 ELSE 0]>>
+                \o RScript(v1, sd, t, n, Tail(pending), IF Repeatable(c) THEN c ELSE last, macro, atseen)
+    ELSE LET g == IF t = 1 THEN [k |-> "ins", ik |-> "i", keys |-> FirstKeys(sd), reg |-> 0, c1 |-> 0] ELSE GenRepeat(vs, sd, t, last, macro # <<>>) IN
+         IF g.k = "dot" THEN
+            <<[keys |-> CntKeys(g.c1) \o <<46>>, xkeys |-> <<>>, kind |-> "dot", sub |-> "dot", queued |-> 0, exp |-> Proj(vs), thm |-> 1,
+               push |-> KeysOfAll(Copies(<<last>>, Max2(1, g.c1)))]>>
+            \o RScript(vs, sd, t + 1, n, [i \in 1..Max2(1, g.c1) |-> [c |-> last, typed |-> FALSE, tkeys |-> <<>>]], last, macro, atseen)
+         ELSE IF g.k = "at" THEN
+            LET cs == Copies(macro, Max2(1, g.c1)) IN
+            <<[keys |-> CntKeys(g.c1) \o (IF g.again /\ atseen THEN <<64, 64>> ELSE <<64, 97>>), xkeys |-> <<>>, kind |-> "at", sub |-> "at",
+               queued |-> 0, exp |-> Proj(vs), thm |-> 1, push |-> KeysOfAll(cs)]>>
+            \o RScript(vs, sd, t + 1, n, [i \in 1..Len(cs) |-> [c |-> cs[i], typed |-> FALSE, tkeys |-> <<>>]], last, macro, TRUE)
+         ELSE IF g.k = "defmacro" THEN
+            LET m == MacroPool[g.idx]
+                open == [k |-> "ins", ik |-> "O", keys |-> Quote(KeysOfAll(m)), reg |-> 0, c1 |-> 0]
+                (* typed in quoted form (^V before control keys): what lands in the buffer is the macro text itself *)
+                yank == [k |-> "op", op |-> "y", m |-> Mot("$"), c1 |-> 0, c2 |-> 0, reg |-> 97, keys |-> <<>>]
+                del == [k |-> "op", op |-> "d", m |-> Mot("dbl"), c1 |-> 0, c2 |-> 0, reg |-> 0, keys |-> <<>>]
+            IN RScript(vs, sd, t + 1, n,
+                       <<[c |-> open, typed |-> TRUE, tkeys |-> Keys(open)], [c |-> MotC("^", 0), typed |-> TRUE, tkeys |-> Keys(MotC("^", 0))],
+                         [c |-> yank, typed |-> TRUE, tkeys |-> Keys(yank)], [c |-> del, typed |-> TRUE, tkeys |-> Keys(del)]>>,
+                       last, m, atseen)
+         ELSE RScript(vs, sd, t + 1, n, <<[c |-> g, typed |-> TRUE, tkeys |-> Keys(IF g.k = "op" /\ g.op = "c" /\ ~ViCmd(vs, g).ok
+                                                                                      THEN [g EXCEPT !.op = "d", !.keys = <<>>] ELSE g)]>>,
+                      last, macro, atseen)
+
 (* fixed scripts: replays of findings that every run repeats *)
-Ins(keys) == [k |-> "ins", ik |-> "i", keys |-> keys, reg |-> 0, c1 |-> 0]
-MotC(k, c1) == [k |-> "mot", m |-> Mot(k), c1 |-> c1, reg |-> 0]
 Corpus == <<
    (* KF-search-wordctx: /\<bar with the cursor inside "foobar" *)
    << Ins(<<102,111,111,98,97,114,32,98,97,114>>), MotC("0", 0), MotC("l", 2),
@@ -132,6 +200,9 @@ NSteps == EnvN("NSTEPS", 30)
 Start == [NewVi(RegNames, {97, 98}) EXCEPT !.ai = EnvN("AI", 1) = 1]
 Table == IF Profile = "corpus"
          THEN [k \in 1..Len(Corpus) |-> [seed |-> -k, profile |-> "corpus", ai |-> 1, steps |-> Fixed(Start, Corpus[k], 1)]]
+         ELSE IF Profile = "repeat"
+         THEN [k \in 1..NScripts |-> [seed |-> Seed0 + k - 1, profile |-> Profile, ai |-> EnvN("AI", 1),
+                                       steps |-> RScript(Start, Seed0 + k - 1, 1, NSteps, <<>>, [k |-> "none"], <<>>, FALSE)]]
          ELSE [k \in 1..NScripts |-> [seed |-> Seed0 + k - 1, profile |-> Profile, ai |-> EnvN("AI", 1),
                                  steps |-> Script(Start, Seed0 + k - 1, 1, NSteps)]]
 Init == dummy = 0 /\ ndJsonSerialize(Env("OUT", "/tmp/gen_vi.ndjson"), Table)
